@@ -495,8 +495,10 @@ func TestPropSortedCache(t *testing.T) {
 // ---------------------------------------------------------------- set
 
 type setOp struct {
-	Kind string // add | added | without | diff | has
+	Kind string // new | of | add | added | without | diff | check
+	On   int    // which of the sets created so far is the receiver
 	Vals []int
+	Cap  int // new: capacity
 }
 type setProg struct{ Ops []setOp }
 
@@ -505,8 +507,10 @@ func genSet(rt *rapid.T) setProg {
 	p := setProg{}
 	for i := 0; i < n; i++ {
 		p.Ops = append(p.Ops, setOp{
-			Kind: rapid.SampledFrom([]string{"add", "add", "added", "without", "diff", "has"}).Draw(rt, "kind"),
+			Kind: rapid.SampledFrom([]string{"new", "of", "add", "add", "added", "added", "added", "without", "diff", "check"}).Draw(rt, "kind"),
+			On:   rapid.IntRange(0, 40).Draw(rt, "on"),
 			Vals: rapid.SliceOfN(rapid.IntRange(0, 9), 0, 4).Draw(rt, "vals"),
+			Cap:  rapid.SampledFrom([]int{0, 1, 2, 4, 16, 100}).Draw(rt, "cap"),
 		})
 	}
 	return p
@@ -531,16 +535,24 @@ func refWithout(l []int, vs ...int) []int {
 	return out
 }
 
+// The set is used as a persistent structure (dkv/sst derives a level's next
+// table set from the current one with Added/Without while readers still hold
+// the current one): every set ever created stays in the population, any of
+// them can be the receiver of the next operation, and after every operation
+// ALL of them are compared with their models.
 func execSet(p setProg, c *hx.Case) error {
-	s := ds.NewSet[int](2)
-	var model []int
+	sets := []*ds.Set[int]{ds.NewSet[int](2)}
+	models := [][]int{nil}
 	same := func(what string, got *ds.Set[int], want []int) error {
 		gl := slices.Collect(got.All())
 		if !slices.Equal(gl, want) && !(len(gl) == 0 && len(want) == 0) {
 			return hx.Errf("%s: All()=%v want %v", what, gl, want)
 		}
-		if got.Size() != len(want) || len(got.Slice()) != len(want) {
-			return hx.Errf("%s: Size()=%d len(Slice())=%d want %d", what, got.Size(), len(got.Slice()), len(want))
+		if sl := got.Slice(); !slices.Equal(sl, want) && !(len(sl) == 0 && len(want) == 0) {
+			return hx.Errf("%s: Slice()=%v want %v", what, sl, want)
+		}
+		if got.Size() != len(want) {
+			return hx.Errf("%s: Size()=%d want %d", what, got.Size(), len(want))
 		}
 		for v := 0; v < 10; v++ {
 			if got.Has(v) != slices.Contains(want, v) {
@@ -549,58 +561,50 @@ func execSet(p setProg, c *hx.Case) error {
 		}
 		return nil
 	}
-	removed := 0
+	removed, siblings := 0, 0
+	derivedFrom := map[int]int{}
 	for step, op := range p.Ops {
-		w := fmt.Sprintf("step %d %s%v", step, op.Kind, op.Vals)
+		r := op.On % len(sets)
+		w := fmt.Sprintf("step %d %s%v on set %d", step, op.Kind, op.Vals, r)
 		switch op.Kind {
+		case "new":
+			sets, models = append(sets, ds.NewSet[int](op.Cap)), append(models, nil)
+		case "of":
+			sets, models = append(sets, ds.SetOf(op.Vals...)), append(models, refAdd(nil, op.Vals...))
 		case "add":
-			s.Add(op.Vals...)
-			model = refAdd(model, op.Vals...)
+			sets[r].Add(op.Vals...)
+			models[r] = refAdd(models[r], op.Vals...)
 		case "added":
-			next := s.Added(op.Vals...)
-			if err := same(w+" result", next, refAdd(model, op.Vals...)); err != nil {
-				return err
+			sets, models = append(sets, sets[r].Added(op.Vals...)), append(models, refAdd(models[r], op.Vals...))
+			derivedFrom[r]++
+			if derivedFrom[r] >= 2 {
+				siblings++
 			}
-			if err := same(w+" receiver", s, model); err != nil {
-				return err
-			}
-			s, model = next, refAdd(model, op.Vals...)
 		case "without":
-			next := s.Without(op.Vals...)
-			want := refWithout(model, op.Vals...)
-			if err := same(w+" result", next, want); err != nil {
-				return err
-			}
-			if err := same(w+" receiver", s, model); err != nil {
-				return err
-			}
-			removed += len(model) - len(want)
-			s, model = next, want
+			want := refWithout(models[r], op.Vals...)
+			removed += len(models[r]) - len(want)
+			sets, models = append(sets, sets[r].Without(op.Vals...)), append(models, want)
 		case "diff":
-			next := s.Diff(ds.SetOf(op.Vals...))
-			want := refWithout(model, op.Vals...)
-			if err := same(w+" result", next, want); err != nil {
-				return err
-			}
-			if err := same(w+" receiver", s, model); err != nil {
-				return err
-			}
-			removed += len(model) - len(want)
-			s, model = next, want
-		case "has":
+			want := refWithout(models[r], op.Vals...)
+			removed += len(models[r]) - len(want)
+			sets, models = append(sets, sets[r].Diff(ds.SetOf(op.Vals...))), append(models, want)
+		case "check":
 		}
-		if err := same(w, s, model); err != nil {
-			return err
+		for i := range sets {
+			if err := same(fmt.Sprintf("%s: set %d", w, i), sets[i], models[i]); err != nil {
+				return err
+			}
 		}
 	}
-	if removed > 0 && len(model) >= 2 {
+	c.LabelIf(siblings > 0, "two sets derived from one")
+	if removed > 0 && siblings > 0 {
 		c.NonTrivial()
 	}
 	return nil
 }
 
 func TestPropSet(t *testing.T) {
-	hx.Run(t, hx.Spec{Prop: "C19", Rule: "Add/Added/Without/Diff/Has/All/Size over ints 0..9 vs an insertion-ordered slice, checking persistence of the receiver; non-trivial = >=1 element removed and >=2 remain"}, genSet, execSet)
+	hx.Run(t, hx.Spec{Prop: "C19", Rule: "the insertion-ordered set used as a persistent structure: a population of sets created with NewSet(capacity 0..100) / SetOf / Added / Without / Diff, any of which can receive the next Add/Added/Without/Diff; after every operation EVERY set of the population is compared (All, Slice, Size, Has over 0..9) with its own insertion-ordered slice model; non-trivial = >=1 element removed and two sets derived from the same one"}, genSet, execSet)
 }
 
 // ---------------------------------------------------------------- sorted map
